@@ -15,7 +15,11 @@ static inline void g_snap_take(struct c02_snap *g, const ELEM *p)
 {
     ELEM ek, ej;
     ek.g_bits = (p && g_k < C02_NSLOTS(p)) ? C02_BASE(p)[g_k].g_bits : 0;
+#ifdef C02_NO_J
+    ej.g_bits = 0;
+#else
     ej.g_bits = (p && g_j < C02_NSLOTS(p)) ? C02_BASE(p)[g_j].g_bits : 0;
+#endif
     g->sk = ELEM_ST(&ek); g->vk = ELEM_V(&ek); g->sj = ELEM_ST(&ej); g->vj = ELEM_V(&ej);
 }
 /* ---- vector::changeBuffer, loop 0: for (ip = begin(), op = newbuf; ip != ie; op++, ip++) move_constructor(op, *ip)
@@ -104,6 +108,25 @@ const ELEM *g_cr_first0;
     (!((gi) < (self)->m_capacity) ||                                                                                       \
      C02_IS(&(self)->m_data[gi], (gi) < (self)->m_size ? ELEM_LIVE : ELEM_RAW, (gi) < (self)->m_size ? ELEM_V(&g_cr_first0[gi]) : 0))
 
+
+/* units that need only one tracked index define C02_NO_J: the invariants about g_j become trivial (smaller formula) */
+#ifdef C02_NO_J
+#undef C02_INV_CB_J
+#define C02_INV_CB_J(self, ip, newbuf, oldcap, newcap) 1
+#undef C02_INV_AD_J
+#define C02_INV_AD_J(first, last) 1
+#undef C02_INV_CL_J
+#define C02_INV_CL_J(self, i) 1
+#undef C02_INV_RSG_J
+#define C02_INV_RSG_J(self, oldsize, i) 1
+#undef C02_INV_RSS_J
+#define C02_INV_RSS_J(self, n, i) 1
+#undef C02_INV_ER_J
+#define C02_INV_ER_J(self, first, i) 1
+#undef C02_INV_CC_J
+#define C02_INV_CC_J(self, ip) 1
+#endif
+
 /* ================================================================== harness helpers
  * c02_vec_any: an ARBITRARY state satisfying VEC(v): m_data == NULL && cap == 0 && size == 0, or m_data is a block
  * of exactly cap slots obtained from the allocator, size <= cap, slot k < size LIVE, slot size <= k < cap RAW -
@@ -129,7 +152,9 @@ static inline void c02_vec_any(struct vector *v, size_t cap, size_t size, int is
 #else
     (void)content;
     if (g_k < cap) __CPROVER_assume(ELEM_ST(&p[g_k]) == (g_k < size ? ELEM_LIVE : ELEM_RAW));
+#ifndef C02_NO_J
     if (g_j < cap) __CPROVER_assume(ELEM_ST(&p[g_j]) == (g_j < size ? ELEM_LIVE : ELEM_RAW));
+#endif
 #endif
 }
 
